@@ -41,6 +41,7 @@ let run (id : string) (hdr : string list) (lines : string list list) (out : stri
     | ["batch"; n] :: r ->
       let (ops, rest) = take_ops (int_of_string n) r [] in
       ev (EWrite (WMulti (Stdlib.List.map triple ops))); go rest
+    | ["idle"; _] :: r -> go r
     | ["flush"] :: r -> ev EFlush; go r
     | ["join"] :: r -> joined := true; ev EStart; ev (ETick good); go r
     | ["stop"] :: r -> ev EStop; go r
